@@ -5,7 +5,8 @@ args) as postcondition of Parser._build_syntax_error and of every raise_* helper
 raise_indentation_error, from their real bodies (E1), given token/node positions that are well-formed (tok_wf preserved by
 Tokenizer.peek from the stream contract); Tokenizer.get_lines never raises and returns the cached text of each requested
 line; every explicit `raise` of a SyntaxError subclass on the parse path is enumerated and must build a located error;
-every call of a raise_* helper in the generated parser passes a token or a positioned node (E2 typing).
+every call of a raise_* helper in the generated parser passes a token or a positioned node (E2 typing); Parser.literal_eval re-raises
+an error of the literal itself at the token (E1); Tokenizer.get_lines reads the file as it is now (syntactic obligation).
 Bounded: all rejected inputs of a mutation/prefix pool: fields well-formed and `text` begins with source line `lineno`.
 """
 from __future__ import annotations
@@ -240,7 +241,8 @@ def run(rep: Report):
     rep.assume("A1 Python semantics of the supported subset", "positions of tokens are well-formed (contract of _tokenize: tok_wf for the stream; preserved by peek)",
                "nodes handed to the helpers carry the positions their actions gave them (C04 typing: LOCATIONS everywhere)",
                "call sites of known_range / starting_from pass ordered positions (precondition stated, checked only by the stand-in)",
-               "errors raised by ast.literal_eval carry coordinates relative to the token text (external; known finding)")
+               "ast.literal_eval is external: it returns a value or raises SyntaxError with coordinates of its own (re-located by Parser.literal_eval, E1); "
+               "its ValueError subclasses for non-literal text are not modelled (tokens handed to it are NUMBER / STRING tokens)")
     e1common.file_into(rep, "C11", rep.tier)
     raise_sites(rep)
     helper_call_sites(rep)
